@@ -10,7 +10,7 @@ from . import common as cm
 from . import rt
 
 ID = 'C01'
-BOUNDS = {'quick': 4, 'thorough': 6}
+BOUNDS = {'quick': 5, 'thorough': 6}
 OPS = tuple(o for o in sh.LOGICAL if o != 'XOR')
 # name classes a quoted UVL identifier can carry (no '"', '.', CR/LF)
 UVL_NAME_CLASSES = ('digit', 'underscore', 'space', 'punct', 'uvlkw', 'opword', 'nonascii', 'xml', 'ws-edge')
